@@ -1130,9 +1130,6 @@ func (c *Ctx) ObNoStaleElementStores(rule string, fn *ssa.Function, floor int, w
 // loadedCell: v (looked at through transparent helpers) is a load of one
 // memory cell; its identity, "" otherwise.
 func (c *Ctx) loadedCell(v ssa.Value) string {
-	if k := c.P.LoadedCell(v); k != "" {
-		return k
-	}
 	id := ""
 	for _, r := range eng.ResolveAll(v) {
 		k := c.P.LoadedCell(r)
@@ -1148,4 +1145,59 @@ func (c *Ctx) loadedCell(v ssa.Value) string {
 		id = k
 	}
 	return id
+}
+
+// perCallMap: v (looked at through helpers and context-object fields) is a map
+// made by one MakeMap in fn itself - not inside one of its closures - and kept
+// in a variable or field that is assigned once: one map per call of fn.
+func (c *Ctx) perCallMap(v ssa.Value, fn *ssa.Function) bool {
+	rs := eng.ResolveAll(v)
+	if len(rs) == 0 {
+		return false
+	}
+	for _, r := range rs {
+		switch x := r.(type) {
+		case *ssa.MakeMap:
+			if x.Parent() != fn {
+				return false
+			}
+		case *ssa.UnOp:
+			if x.Op != token.MUL {
+				return false
+			}
+			sts := c.P.CellStores(c.P.CellID(x.X))
+			if len(sts) != 1 {
+				return false
+			}
+			mm, isMM := sts[0].Val.(*ssa.MakeMap)
+			if !isMM || mm.Parent() != fn {
+				return false
+			}
+		default:
+			return false
+		}
+	}
+	return true
+}
+
+// deferredFuncs lists the module functions fn defers: function literals and
+// named functions or methods alike.
+func (c *Ctx) deferredFuncs(fn *ssa.Function) []*ssa.Function {
+	var out []*ssa.Function
+	eng.Instrs(fn, func(in ssa.Instruction) {
+		d, ok := in.(*ssa.Defer)
+		if !ok {
+			return
+		}
+		if mc, isMC := d.Call.Value.(*ssa.MakeClosure); isMC {
+			if f := c.P.ClosureFn(mc); f != nil {
+				out = append(out, f)
+			}
+			return
+		}
+		if f := d.Call.StaticCallee(); f != nil && c.P.InModule(f) {
+			out = append(out, f)
+		}
+	})
+	return out
 }
